@@ -73,6 +73,17 @@ def _scene(d, kind):
     if kind == 'cbmm':
         iterations = d.choice([1, 2, 3])
     rng = d.rng()
+    # "perturbation level <= 1e-2": also far smaller levels and none at all
+    # (observations numerically collinear with their prototype: rank-one class
+    # scatter, null eigenvalues at rounding level) for the models that do not
+    # need a non-singular within-class scatter (a Gaussian or Bingham component
+    # of exactly collinear data is refused, and rightly so) - auxiliary stream
+    if kind in ('cacgmm', 'cwmm', 'vmfmm', 'vmfcacgmm'):
+        lv = int(d.aux(32).integers(0, 4))
+        if lv == 0:
+            eps = 10.0 ** d.aux(33).uniform(-12, -4)
+        elif lv == 1 and d.aux(34).integers(0, 2):
+            eps = 0.0
     span = d.choice([0, 3, 8, 100])
     case = mm.Case(kind=kind, K=K, D=D, iterations=iterations)
     case.meta['gain_span'] = span
